@@ -276,7 +276,7 @@ class Geometry(DaeObject):
         for prim in self.primitives:
             for node in prim.xmlnode.findall(tag('input')):
                 src = node.get('source')[1:]
-                if src == vert_ref:
+                if src == vert_ref and node.get('semantic') == 'VERTEX':
                     node.set('source', '#%s' % vert_src)
 
         self.xmlnode.set('id', self.id)
